@@ -447,6 +447,51 @@ func rulesC11(p *Prog, r *Report) {
 				}
 			}
 		}
+		// (a') the record and the total move by the same amount: what leaves the depositor's record is
+		// what leaves the recorded total (a fee is taken off the payout, not off one of the two books)
+		{
+			var recX, totX []ssa.Value
+			for _, b := range fn.Blocks {
+				for _, in := range b.Instrs {
+					st, ok := in.(*ssa.Store)
+					if !ok {
+						continue
+					}
+					base, path := addrBase(st.Addr)
+					tn := namedTypeName(base.Type())
+					op, _, x, isAS := addSubOf(st.Val)
+					if !isAS || len(path) == 0 {
+						continue
+					}
+					_ = op
+					if tn == "LimitOrderBid" && path[0] == "DebtToken" && !deletesRecord {
+						recX = append(recX, x)
+					}
+					if tn == "LimitBidProtocolData" && path[0] == "BidValue" {
+						totX = append(totX, x)
+					}
+				}
+			}
+			if len(recX) > 0 && len(totX) > 0 {
+				r.Instance("R11.5")
+				construct := name + " record and total agree"
+				var tk []string
+				for _, x := range totX {
+					tk = append(tk, flatten(altKeys(p, x))...)
+				}
+				okAll := true
+				for _, x := range recX {
+					if !allAltsIn(altKeys(p, x), tk) {
+						okAll = false
+					}
+				}
+				if okAll {
+					r.OK("R11.5", construct, "the depositor's record and the recorded total change by the same amount", p.pos(fn.Pos()))
+				} else {
+					r.Fail("R11.5", construct, fmt.Sprintf("the depositor's record changes by %v while the recorded total changes by %v: the total no longer equals the sum of the deposits, and the depositor can later take out the difference", keysOf(p, recX[0]), uniq(tk)), p.pos(fn.Pos()), nil)
+				}
+			}
+		}
 		// (b) key agreement: the record is read under the same (debt, collateral, premium, bidder) it is stored under
 		var getArgs, setArgs []ssa.Value
 		for _, c := range calls(fn) {
